@@ -100,6 +100,12 @@ def structural_update(op, tree_tpl, parallel=False):
         g = template(op['tpl'], op['x0'], parallel)
         g['key'] = op['k']
         return {'agents': {'_generate': [g], '_delete': [op['k2']]}}
+    if o == 'gen2':
+        g = template(op['tpl'], op['x0'], parallel)
+        g['key'] = op['k']
+        g2 = template(op['tpl'], op['x0'], parallel)
+        g2['key'] = op['k2']
+        return {'agents': {'_generate': [g]}, 'pool': {'_generate': [g2]}}
     if o == 'addleaf':
         return {'leaves': {'_add': [{'key': op['k'], 'state': op['v']}]}}
     if o == 'delleaf':
@@ -422,6 +428,11 @@ def applicable_ops(model, tpls=('T1', 'T2', 'T3'), names=NAMES, max_comps=3):
                 ops.append({'op': 'add', 'k': k, 'x0': 5})
                 for t in tpls:
                     ops.append({'op': 'gen', 'k': k, 'tpl': t, 'x0': 0})
+            if n + 1 < max_comps:
+                for j in names:
+                    if j not in po and j != k:
+                        ops.append({'op': 'gen2', 'k': k, 'tpl': tpls[0], 'x0': 0, 'k2': j})
+                        break
             for j in ag:
                 if j != k:
                     ops.append({'op': 'adddel', 'k': k, 'x0': 5, 'k2': j})
@@ -450,8 +461,10 @@ def apply_model(model, op):
         del m['leaves'][op['k']]
     if o in ('add', 'adddel'):
         m['agents'][op['k']] = 'T0'
-    if o in ('gen', 'gendel'):
+    if o in ('gen', 'gendel', 'gen2'):
         m['agents'][op['k']] = op['tpl']
+    if o == 'gen2':
+        m['pool'][op['k2']] = op['tpl']
     if o in ('del', 'delpath'):
         del m['agents'][op['k']]
     if o in ('adddel', 'gendel'):
